@@ -21,7 +21,7 @@ RULE = ('Evaluation = one run() + three metar_msg() calls on a frame that satisf
         'parameters); every case counts as non-trivial except the single-row ones.')
 ASSUMPTIONS = ['BLAS/OpenMP threads fixed to 1', 'settings that shatter > 150 hits into hundreds of slices are not '
                'generated: the grouping step is quadratic in the number of slices (slow, not divergent)']
-REQUIRED = ['fam:gmm_direct', 'extra_object_columns', 'extreme_parameters', 'fam:generic', 'fam:degenerate', 'fam:bimodal', 'fam:chain', 'fam:empty_after_crop', 'scaling:minmax-scale',
+REQUIRED = ['fam:ulp_dt', 'range_index', 'fam:gmm_direct', 'extra_object_columns', 'extreme_parameters', 'fam:generic', 'fam:degenerate', 'fam:bimodal', 'fam:chain', 'fam:empty_after_crop', 'scaling:minmax-scale',
             'scaling:shift-and-scale', 'scaling:step-scale', 'anomalies', 'refusal:missing_column',
             'refusal:duplicates', 'refusal:type0_coincident', 'refusal:vv_coincident', 'refusal:empty',
             'refusal:not_a_frame', 'refusal:call_order', 'refusal:min_sep_lengths'] + \
@@ -37,7 +37,7 @@ def plan(tier, seed):
     out = []
     for i in range(z['generic']):
         out.append({'fam': 'generic', 's': seed, 'p': NUM, 'i': i, 'allow_empty': True,
-                    'k': {'big': i % 5 == 0, 'anom': i % 2 == 0, 'index': 'concat' if i % 10 == 3 else None,
+                    'k': {'big': i % 5 == 0, 'anom': i % 2 == 0, 'index': ['concat', 'range_offset', 'range_desc'][(i // 10) % 3] if i % 10 == 3 else None,
                           'extreme': i % 3 == 1, 'extra': 'objects' if i % 7 == 2 else None, 'maxrows': 3000 if (tier == 'thorough' and i % 50 == 0) else 1200}})
     for i in range(z['eng']):
         fam = ['bimodal', 'chain', 'tiecut', 'bimodal'][i % 4]
@@ -52,6 +52,8 @@ def plan(tier, seed):
         out.append({'fam': 'degenerate', 's': seed, 'p': NUM, 'i': 200000 + i, 'k': {'kind': kind, 'rich': True}})
     for i in range(6 if tier == 'quick' else 60):
         out.append({'fam': 'empty_after_crop', 's': seed, 'p': NUM, 'i': 300000 + i})
+    for i in range(24 if tier == 'quick' else 600):        # time stamps of one instrument one ulp apart, full layer
+        out.append({'fam': 'ulp_dt', 's': seed, 'p': NUM, 'i': 600000 + i})
     for i in range(12 if tier == 'quick' else 200):        # 500 direct calls of the layering helper each
         out.append({'fam': 'gmm_direct', 's': seed, 'p': NUM, 'i': 500000 + i, 'n': 500})
     for i in range(len(REFUSALS) * (3 if tier == 'quick' else 40)):
@@ -208,6 +210,8 @@ def check(desc):
         tags.add('nonunique_index')
     if sc.get('extra'):
         tags.add('extra_object_columns')
+    if sc.get('index_kind') == 'range':
+        tags.add('range_index')
     nontriv = [pipeline.case_digest(case)] if len(sc['rows']) > 1 else []
     res = {'evals': 1, 'nontrivial': nontriv, 'tags': sorted(tags), 'viol': viol,
            'counters': {'runs': 1, 'cpu_s_total': cpu}, 'case': case}
